@@ -25,10 +25,16 @@ type run struct {
 	rep *hx.Report
 }
 
-func newRun(tw *hx.TraceWriter, rep *hx.Report, seed int64, p chainParams, label string) *run {
+// disp: the node serves off-chain dispatches after every commit (sessions cached).
+func newRun(tw *hx.TraceWriter, rep *hx.Report, seed int64, p chainParams, disp bool, label string) *run {
 	s := newSim(claimsConfig(seed, p))
 	b := newEvBook(s)
 	cr := &run{s: s, b: b, r: newRecorder(s, b, tw), p: p, ent: 1000, rep: rep}
+	cr.r.disp = disp
+	if disp {
+		label += "-dispatched"
+		rep.OpCounts["chains with dispatches"]++
+	}
 	cr.r.reset(label)
 	rep.Behaviours++
 	return cr
@@ -214,9 +220,9 @@ var e5 = evSpec{N: 5, Var: 1, Cheat: -1}
 var e6 = evSpec{N: 6, Var: 2, Cheat: -1}
 var e6dup = evSpec{N: 6, Var: 3, Cheat: -1}
 
-func scenarioThreeSessions(tw *hx.TraceWriter, rep *hx.Report, seed int64) {
+func scenarioThreeSessions(tw *hx.TraceWriter, rep *hx.Report, seed int64, disp bool) {
 	p := chainParams{B: 2, W: 2, Exp: 2}
-	cr := newRun(tw, rep, seed, p, "three-sessions")
+	cr := newRun(tw, rep, seed, p, disp, "three-sessions")
 	n1, n2, n3, a1, a2, notApp := kNode1, kNode2, kNode3, kApp1, kApp2, kUser1
 	cr.blockTo(4)
 	cr.claim(n1, a1, "0001", 3, 5, e5, n1, nil) // early: the session (3..4) has not ended
@@ -273,8 +279,8 @@ func scenarioThreeSessions(tw *hx.TraceWriter, rep *hx.Report, seed int64) {
 // before the claim is authored; the tree is then built with ONE really signed relay placed
 // at that position; the claim for `total` relays is accepted and proved in the same block;
 // the same claim is then submitted and paid again.
-func scenarioBoundary(tw *hx.TraceWriter, rep *hx.Report, seed int64, p chainParams, total int) map[string]interface{} {
-	cr := newRun(tw, rep, seed, p, fmt.Sprintf("boundary-B%d-W%d", p.B, p.W))
+func scenarioBoundary(tw *hx.TraceWriter, rep *hx.Report, seed int64, p chainParams, total int, disp bool) map[string]interface{} {
+	cr := newRun(tw, rep, seed, p, disp, fmt.Sprintf("boundary-B%d-W%d", p.B, p.W))
 	s := cr.s
 	S := p.B + 1
 	if S < 3 {
@@ -297,7 +303,7 @@ func scenarioBoundary(tw *hx.TraceWriter, rep *hx.Report, seed int64, p chainPar
 	cr.blockTo(c + 1)
 	r5 := cr.claim(kNode1, kApp1, "0001", S, int64(total), e, kNode1, nil) // one block later: rejected
 	cr.finish()
-	return map[string]interface{}{"B": p.B, "W": p.W, "sessionH": S, "claimHeight": c, "entropyHeight": c - 1, "predictedIndex": pred,
+	return map[string]interface{}{"B": p.B, "W": p.W, "dispatched": disp, "sessionH": S, "claimHeight": c, "entropyHeight": c - 1, "predictedIndex": pred,
 		"total": total, "signedRelays": 1, "claim": classOf(r1), "proof": classOf(r2), "minted": mid.Supply - before.Supply,
 		"claimAgain": classOf(r3), "proofAgain": classOf(r4), "mintedAgain": after.Supply - mid.Supply, "claimNextBlock": classOf(r5)}
 }
@@ -305,9 +311,9 @@ func scenarioBoundary(tw *hx.TraceWriter, rep *hx.Report, seed int64, p chainPar
 // scenarioStakes: an application staked in the middle of the chain (claims for sessions
 // before / after it), a node staked by transaction with an output address and delegators
 // (three candidates for two seats: the session is pseudorandom and bound from the log).
-func scenarioStakes(tw *hx.TraceWriter, rep *hx.Report, seed int64, rscal bool) {
+func scenarioStakes(tw *hx.TraceWriter, rep *hx.Report, seed int64, rscal, disp bool) {
 	p := chainParams{B: 2, W: 2, Exp: 3, RSCAL: rscal}
-	cr := newRun(tw, rep, seed, p, fmt.Sprintf("stakes-rscal-%v", rscal))
+	cr := newRun(tw, rep, seed, p, disp, fmt.Sprintf("stakes-rscal-%v", rscal))
 	s := cr.s
 	newApp, newNode, out, del := 8, 10, 11, kUser2
 	cr.blockTo(3)
@@ -339,6 +345,49 @@ func scenarioStakes(tw *hx.TraceWriter, rep *hx.Report, seed int64, rscal bool) 
 	cr.finish()
 }
 
+// scenarioStale: the servicers' records change INSIDE the session, after the node has served a
+// dispatch for it (so the cached session was computed from the earlier records): one session
+// node edit-stakes away from the chain (the code clears the session cache on edit-stake), the
+// other begins to unstake (no cache clear; an unstaking node stays eligible).  Claims, late
+// claims and proofs follow; with and without the dispatches the outcomes must be the
+// specification's, which recomputes the session from the session-start / session-end states.
+func scenarioStale(tw *hx.TraceWriter, rep *hx.Report, seed int64, disp, editStake bool) {
+	p := chainParams{B: 4, W: 2, Exp: 3}
+	cr := newRun(tw, rep, seed, p, disp, fmt.Sprintf("stale-session-edit-%v", editStake))
+	s := cr.s
+	cr.blockTo(6) // session 5..8 has begun; block 5 is committed (and dispatched)
+	if editStake {
+		o, abs := cr.sig(kNode1)
+		abs["kind"], abs["node"], abs["output"], abs["chains"], abs["amount"] = "node_stake", s.Name(s.Addr(kNode1)), "", []string{"0002"}, 2600000
+		res := cr.r.deliver(s.SignTx(&nodesTypes.MsgStake{PublicKey: s.Keys[kNode1].PublicKey(), Chains: []string{"0002"}, Value: sdk.NewInt(2600000),
+			ServiceUrl: "https://node.example:443", Output: s.Addr(kNode1)}, o), abs)
+		cr.count("node_stake", res)
+	}
+	cr.blockTo(7)
+	{
+		o, abs := cr.sig(kNode2)
+		abs["kind"], abs["node"], abs["msgSigner"] = "node_unstake", s.Name(s.Addr(kNode2)), s.Name(s.Addr(kNode2))
+		res := cr.r.deliver(s.SignTx(&nodesTypes.MsgBeginUnstake{Address: s.Addr(kNode2), Signer: s.Addr(kNode2)}, o), abs)
+		cr.count("node_unstake", res)
+	}
+	cr.blockTo(9)
+	for _, n := range []int{kNode1, kNode2, kNode3} {
+		cr.claim(n, kApp1, "0001", 5, 5, e5, n, nil)
+	}
+	cr.blockTo(13) // = S + W*B
+	for _, n := range []int{kNode1, kNode2} {
+		cr.proof(n, kApp1, "0001", 5, e5, proofOpts{Leaf: "req", Signer: -1})
+	}
+	cr.blockTo(14)
+	for _, n := range []int{kNode1, kNode2} {
+		cr.claim(n, kApp1, "0001", 5, 5, e5, n, nil) // the claim window is over
+	}
+	cr.claim(kNode2, kApp1, "0001", 9, 5, e5, kNode2, nil) // next session: node 2 is unstaking but still a candidate of session 9?
+	cr.blockTo(18)
+	cr.claim(kNode2, kApp1, "0001", 5, 5, e5, kNode2, nil) // far too late
+	cr.finish()
+}
+
 // ---------------------------------------------------------------------------
 // seeded random chains
 // ---------------------------------------------------------------------------
@@ -353,7 +402,7 @@ type sentClaim struct {
 func randomChain(tw *hx.TraceWriter, rep *hx.Report, rng *rand.Rand, seed int64, blocks int) {
 	p := chainParams{B: int64(2 + rng.Intn(2)), W: int64(2 + rng.Intn(2)), NodeCount: int64(1 + rng.Intn(2))}
 	p.Exp = p.W + int64(rng.Intn(2))
-	cr := newRun(tw, rep, seed, p, fmt.Sprintf("random-B%d-W%d-E%d-N%d", p.B, p.W, p.Exp, p.NodeCount))
+	cr := newRun(tw, rep, seed, p, rng.Intn(2) == 0, fmt.Sprintf("random-B%d-W%d-E%d-N%d", p.B, p.W, p.Exp, p.NodeCount))
 	nodes := []int{kNode1, kNode2, kNode3}
 	apps := []int{kApp1, kApp1, kApp2, kUser1}
 	chainOf := map[int]string{kApp1: "0001", kApp2: "0002", kUser1: "0001"}
@@ -448,12 +497,17 @@ func traceClaims(out string, nRandom, blocks int) {
 	}
 	rep := hx.NewReport("chain-claims", "trace-claims")
 	seed := hx.Seed()
-	scenarioThreeSessions(tw, rep, seed)
+	scenarioThreeSessions(tw, rep, seed, false)
 	var confirmations []interface{}
-	confirmations = append(confirmations, scenarioBoundary(tw, rep, seed, chainParams{B: 2, W: 2, Exp: 2}, 9))
-	confirmations = append(confirmations, scenarioBoundary(tw, rep, seed, chainParams{B: 4, W: 3, Exp: 3}, 33))
-	scenarioStakes(tw, rep, seed, false)
-	scenarioStakes(tw, rep, seed, true)
+	confirmations = append(confirmations, scenarioBoundary(tw, rep, seed, chainParams{B: 2, W: 2, Exp: 2}, 9, false))
+	confirmations = append(confirmations, scenarioBoundary(tw, rep, seed, chainParams{B: 4, W: 3, Exp: 3}, 33, true))
+	scenarioThreeSessions(tw, rep, seed, true)
+	scenarioStakes(tw, rep, seed, false, true)
+	scenarioStakes(tw, rep, seed, true, false)
+	for _, disp := range []bool{false, true} {
+		scenarioStale(tw, rep, seed, disp, true)
+		scenarioStale(tw, rep, seed, disp, false)
+	}
 	for t := 0; t < nRandom; t++ {
 		randomChain(tw, rep, hx.Rng(int64(t)+31), seed*1000+int64(t), blocks)
 	}
